@@ -128,6 +128,9 @@ def write_ticks(case):
         elif op["op"] == "race":
             t += 2
             ticks[i] = t
+        elif op["op"] == "hbatch":
+            t += (len(op["ents"]) + 9) // 10     # the HTTP handler stores batches of 10
+            ticks[i] = t
     return ticks
 
 
@@ -205,6 +208,27 @@ def case_term(codes, case, obs):
                     deleted = bool(e.get("deleted"))
             terms.append("SGet %d %s %s %s %s %s %s" % (codes.ucode(expand(op["id"])), at, scope, vlib.coq_bool(op.get("merge", False)),
                                                       vlib.coq_bool(found), vlib.coq_list(parts), vlib.coq_bool(deleted)))
+        elif k == "hbatch":
+            # POST through the HTTP handler: StoreEntities is called once per 10 entities (and once for the rest)
+            lens = (list(oo.get("lens") or []) + [0] * len(op["ents"]))[:len(op["ents"])]
+            for c0 in range(0, len(op["ents"]), 10):
+                chunk = vlib.coq_list([ent_term(codes, e, l) for e, l in zip(op["ents"][c0:c0 + 10], lens[c0:c0 + 10])])
+                terms.append("SWrite (WBatch %d %s) (-1)" % (ds_code(case, op["ds"]), chunk))
+        elif k == "hchanges":
+            key = ("hrev" if op.get("reverse") else "h", op.get("reader"), op["ds"])
+            since = tokens.get(key, 0) if op.get("reader") else op.get("since", 0)
+            ents = vlib.coq_list([oent_term(codes, e, ns) for e in (oo.get("ents") or [])])
+            nxt = oo.get("next", 0) if not (oo.get("err") or oo.get("panic")) else -7
+            if op.get("reader"):
+                tokens[key] = oo.get("next", 0)
+            if op.get("reverse"):
+                terms.append("SRev %d %s %d %s %s" % (ds_code(case, op["ds"]), vlib.zlit(since), op.get("limit", 0), ents, vlib.zlit(nxt)))
+            else:
+                terms.append("SChanges %d %d %d %s %s %s" % (ds_code(case, op["ds"]), since, op.get("limit", 0),
+                                                            vlib.coq_bool(op.get("latest", False)), ents, vlib.zlit(nxt)))
+        elif k == "hentities":
+            pages = vlib.coq_list([vlib.coq_list([oent_term(codes, e, ns) for e in pg]) for pg in (oo.get("pages") or [])])
+            terms.append("SEntities %d %s %s" % (ds_code(case, op["ds"]), vlib.coq_list([vlib.zlit(x) for x in op.get("limits", [])]), pages))
         elif k == "race":
             # two writers on one dataset under a forced schedule; with a correct lock the outcome is one of two sequential orders
             lens = list(oo.get("lens") or [])
@@ -308,6 +332,11 @@ def gen_writes(rng, ndatasets, nops, pool, rich=True):
         d = DS_NAMES[rng.below(ndatasets)]
         ops.append({"op": "batch", "ds": d, "ents": gen_batch(rng, pool, memo, d, rich)})
     return ops
+
+
+def no_null(ents):
+    """the HTTP path cannot carry the nil-property marker of the Go API (the handler would store the marker string)"""
+    return json.loads(json.dumps(ents).replace('"@@null"', '"nul"'))
 
 
 def gen_race(rng, pool, memo, ds, reader, rich=True):
